@@ -105,6 +105,21 @@ func dynSchema() *z.StructSchema {
 	})
 }
 
+// dynSchemaPre: the same record with every field behind a Preprocess function that hands its input on unchanged
+func dynSchemaPre() *z.StructSchema {
+	pass := func(v any, ctx z.Ctx) (any, error) { return v, nil }
+	return z.Struct(z.Schema{
+		"name":  z.Preprocess(pass, z.String().Required().Min(2)),
+		"age":   z.Preprocess(pass, z.Int().GT(0)),
+		"ok":    z.Preprocess(pass, z.Bool()),
+		"when":  z.Preprocess(pass, z.Time()),
+		"tags":  z.Preprocess(pass, z.Slice(z.Preprocess(pass, z.String().Min(1)))),
+		"inner": z.Preprocess(pass, z.Struct(z.Schema{"city": z.String().Required(), "zip": z.String(), "tags": z.Slice(z.String())})),
+		"ptr":   z.Preprocess(pass, z.Ptr(z.Struct(z.Schema{"City": z.String(), "Tags": z.Slice(z.String())}))),
+		"list":  z.Slice(z.Preprocess(pass, z.Struct(z.Schema{"a": z.Int().Required()}))),
+	})
+}
+
 func dynZoo() []any {
 	var nilPtr *dInput
 	var nilMap map[string]any
@@ -174,7 +189,7 @@ func dynJSONDocs() []string {
 
 func streamDyn(seed uint64, n int) (*Summary, error) {
 	sum := newSummary("dyn", seed)
-	sum.Rule = "zoo of ~100 Go dynamic values (nil and typed nils incl. nil pointers of types with value-receiver String()/Error() methods, pointer chains, named and unnamed maps with every key/element kind, structs with unexported fields and empty tags, channels, functions, NaN/Inf, huge numbers, invalid UTF-8, 200-deep nesting, long strings) and ~35 JSON documents (incl. {}, non-objects, truncated, 500-deep, invalid UTF-8) through Parse / zjson / zenv on matching (schema, destination) pairs incl. a 48-byte schema key, a non-ASCII key and empty tags, plus random mutations of the zoo; exhaustive over the zoo; non-trivial = every case; distinct = distinct (front end, value)"
+	sum.Rule = "zoo of ~100 Go dynamic values (nil and typed nils incl. nil pointers of types with value-receiver String()/Error() methods, pointer chains, named and unnamed maps with every key/element kind, structs with unexported fields and empty tags, channels, functions, NaN/Inf, huge numbers, invalid UTF-8, 200-deep nesting, long strings) and ~35 JSON documents (incl. {}, non-objects, truncated, 500-deep, invalid UTF-8) through Parse / zjson / zenv on matching (schema, destination) pairs incl. a 48-byte schema key, a non-ASCII key and empty tags, plus random mutations of the zoo, each also with every field behind a Preprocess function that hands its input on unchanged; exhaustive over the zoo; non-trivial = every case; distinct = distinct (front end, value)"
 	schema := dynSchema()
 	prims := []func(v any) (string, any){
 		func(v any) (string, any) { var d string; return "String", z.String().Required().Min(1).Parse(v, &d) },
@@ -193,6 +208,30 @@ func streamDyn(seed uint64, n int) (*Summary, error) {
 			return "CustomInt", z.CustomFunc(func(p *int, ctx z.Ctx) bool { return *p > 0 }).Parse(v, &d)
 		},
 	}
+	pass := func(v any, ctx z.Ctx) (any, error) { return v, nil }
+	prims = append(prims,
+		func(v any) (string, any) {
+			var d []int
+			return "Slice(Pre(Int))", z.Slice(z.Preprocess(pass, z.Int())).Parse([]any{v, 1}, &d)
+		},
+		func(v any) (string, any) {
+			var d []string
+			return "Slice(Pre(String))", z.Slice(z.Preprocess(pass, z.String())).Parse([]any{v}, &d)
+		},
+		func(v any) (string, any) {
+			var d [][]string
+			return "Slice(Pre(Slice))", z.Slice(z.Preprocess(pass, z.Slice(z.String()))).Parse([]any{v}, &d)
+		},
+		func(v any) (string, any) {
+			var d []*int
+			return "Slice(Pre(Ptr))", z.Slice(z.Preprocess(pass, z.Ptr(z.Int()))).Parse([]any{v}, &d)
+		},
+		func(v any) (string, any) {
+			var d []dDest
+			return "Slice(Pre(Struct))", z.Slice(z.Preprocess(pass, dynSchema())).Parse([]any{v}, &d)
+		},
+	)
+	schemaPre := dynSchemaPre()
 	guard := func(what string, f func()) {
 		sum.Evaluations++
 		sum.Nontrivial++
@@ -208,6 +247,7 @@ func streamDyn(seed uint64, n int) (*Summary, error) {
 	for i, v := range zoo {
 		desc := fmt.Sprintf("zoo[%d] %T", i, v)
 		guard("Struct.Parse "+desc, func() { var d dDest; schema.Parse(v, &d) })
+		guard("Struct(Preprocess fields).Parse "+desc, func() { var d dDest; schemaPre.Parse(v, &d) })
 		guard("Struct.Validate-after-parse "+desc, func() { var d dDest; schema.Parse(v, &d); schema.Validate(&d) })
 		for _, p := range prims {
 			p := p
@@ -255,6 +295,7 @@ func streamDyn(seed uint64, n int) (*Summary, error) {
 			m[rng.Pick(r, keys)] = v
 		}
 		guard(fmt.Sprintf("random record %d (seed %d)", i, seed), func() { var d dDest; schema.Parse(m, &d) })
+		guard(fmt.Sprintf("random record %d (seed %d), fields behind a pass-through Preprocess", i, seed), func() { var d dDest; schemaPre.Parse(m, &d) })
 	}
 	if len(sum.Samples) == 0 {
 		sum.Samples = []string{"Struct.Parse zoo[10] main.dNamedMap", "zjson Ptr(Struct) json[0] \"{}\"", "random record 0"}
